@@ -233,6 +233,15 @@ def gen_deck(rng):
     if imp_on_cells:
         last += [T('imp:n', 'word', 'opt'), T('=', 'punct', 'opt'), T(0, 'impnum')]
     cells.append(relink(last, 'end'))
+    # sometimes a second zero-importance cell behind the outside world: an IMP
+    # data card may then end "... 2 1 0 0", i.e. "2 1I 0 R" (a shorthand entry
+    # directly after an interpolation)
+    extra_zero = rng.random() < 0.3
+    if extra_zero:
+        zero = [T(cell_ids[-1] + 1), T(0), T(rng.choice(sids))]
+        if imp_on_cells:
+            zero += [T('imp:n', 'word', 'opt'), T('=', 'punct', 'opt'), T(0, 'impnum')]
+        cells.append(relink(zero, 'end'))
     lattice = None
     if rng.random() < 0.25:
         lattice = add_lattice(rng, cells, surfaces, imp_on_cells, sorted(mats))
@@ -243,6 +252,8 @@ def gen_deck(rng):
             vals = sorted(vals)
         k_out = len(cell_ids) - 1
         vals[k_out] = 0
+        if extra_zero:
+            vals[k_out + 1] = 0
         vals[0] = max(vals[0], 1)
         if k_out >= 3 and rng.random() < 0.4:
             # an arithmetic descent into the zero of the outside cell: the
@@ -253,6 +264,8 @@ def gen_deck(rng):
             vals2 = [rng.choice([0, 1, 1]) for _ in vals]
             vals2[0] = 1
             vals2[k_out] = 0
+            if extra_zero:
+                vals2[k_out + 1] = 0
             data.append([T('imp:p', 'word'), (tuple(vals2), 'impvals', 'end')])
     for n, tr in sorted(transforms.items()):
         card = [T(('*' if tr['star'] else '') + f'tr{n}', 'word')]
@@ -285,7 +298,9 @@ def gen_deck(rng):
 
 def add_lattice(rng, cells, surfaces, imp_on_cells, mats):
     '''A 2x2x1 rectangular lattice (universe 3) in a box cell, filled with
-    universes 4 and 5 (one sphere cell + its outside each).'''
+    universes 4, 5 and 6 (one sphere cell + its outside each); the array is
+    often an arithmetic run followed by a repeat (4 5 6 6), the shape in which
+    a shorthand entry directly follows an interpolation (4 1I 6 R).'''
     def imp(card, val=1):
         if imp_on_cells:
             card += [T('imp:n', 'word', 'opt'), T('=', 'punct', 'opt'),
@@ -294,6 +309,7 @@ def add_lattice(rng, cells, surfaces, imp_on_cells, mats):
     base = 80
     for sid, mn, prm in [(81, 'px', [1.0]), (82, 'px', [-1.0]), (83, 'py', [1.0]),
                          (84, 'py', [-1.0]), (85, 'so', [0.5]), (86, 'so', [0.25]),
+                         (88, 'so', [0.75]),
                          (87, 'rpp', [-1.0, 3.0, -1.0, 3.0, -5.0, 5.0])]:
         surfaces.append({'id': sid, 'mn': mn, 'params': prm, 'tr': None, 'bc': ''})
     second = rng.choice([4, 5])
@@ -302,9 +318,12 @@ def add_lattice(rng, cells, surfaces, imp_on_cells, mats):
     lat = [T(base + 1), T(0), T(-81), T(82), T(-83), T(84)]
     lat += option_tokens('lat', [T(1)]) + option_tokens('u', [T(3)])
     third = rng.choice([4, 5, second])
+    array = (4, second, third, third)
+    if rng.random() < 0.5:
+        array = rng.choice([(4, 5, 6, 6), (6, 5, 4, 4), (4, 5, 6, 5), (4, 4, 5, 6),
+                            (6, 5, 4, 6), (4, 5, 6, 4)])
     lat += option_tokens('fill', [T('0:1', 'punct'), T('0:1', 'punct'),
-                                  T('0:0', 'punct'),
-                                  ((4, second, third, third), 'fillvals', 'sp')])
+                                  T('0:0', 'punct'), (array, 'fillvals', 'sp')])
     new.append(imp(lat))
     mat = mats[0]
     new.append(imp([T(base + 2), T(mat), T('-1.0', 'dens'), T(-85)]
@@ -313,6 +332,9 @@ def add_lattice(rng, cells, surfaces, imp_on_cells, mats):
     new.append(imp([T(base + 4), T(mat), T('-2.0', 'dens'), T(-86)]
                    + option_tokens('u', [T(5)])))
     new.append(imp([T(base + 5), T(0), T(86)] + option_tokens('u', [T(5)])))
+    new.append(imp([T(base + 6), T(mat), T('-3.0', 'dens'), T(-88)]
+                   + option_tokens('u', [T(6)])))
+    new.append(imp([T(base + 7), T(0), T(88)] + option_tokens('u', [T(6)])))
     cells.extend(new)
     return {'cells': len(new)}
 
@@ -574,7 +596,7 @@ def expand_card(card, layout):
             vals = list(text)
             if layout is not None and layout.rng.random() < layout.p_short:
                 toks = shorthand(layout.rng, vals,
-                                 ('r', 'i', 'm') if kind == 'impvals' else ('r',))
+                                 ('r', 'i', 'm') if kind == 'impvals' else ('r', 'i'))
                 if toks != [str(v) for v in vals]:
                     layout.used.add('shorthand:' + kind)
             else:
